@@ -877,7 +877,7 @@ class Interp:
         """construct an object described by a 'ctor' expression at loc; returns states"""
         g = self.F.fn(e['fn']) if e.get('fn') is not None else None
         args = e.get('args', [])
-        if (e.get('copy') or e.get('move')) and len(args) == 1 and (g is None or g.d.get('implicit') or e.get('trivial')):
+        if (e.get('copy') or e.get('move')) and len(args) == 1 and (g is None or g.d.get('implicit') or g.d.get('defaulted') or e.get('trivial')):
             out = []
             for s2, v in self.ev(args[0], frame, st):
                 if v[0] in ('o', 'lv'):
@@ -944,7 +944,7 @@ class Interp:
                 return [st]
             if x['k'] == 'ctor':
                 bg = self.F.fn(x['fn']) if x.get('fn') is not None else None
-                if (x.get('copy') or x.get('move')) and (bg is None or bg.d.get('implicit')) and len(x.get('args', [])) == 1:
+                if (x.get('copy') or x.get('move')) and (bg is None or bg.d.get('implicit') or bg.d.get('defaulted')) and len(x.get('args', [])) == 1:
                     out = []
                     for s2, v in self.ev(x['args'][0], nf, st):
                         if v[0] in ('o', 'lv'):
